@@ -1,4 +1,5 @@
 import IrefVerif.Props.C05
+import IrefVerif.Props.C02
 import IrefVerif.Props.C11
 import IrefVerif.Lemmas.SetterValid
 import IrefVerif.Lemmas.IriBytes
@@ -151,6 +152,74 @@ theorem setter_history (G : Grammar) (ok : Grammar.Ok G) (okp : Grammar.OkPath G
     obtain ⟨w1, h1, hv1⟩ := setter_step G ok okp w h op (hops op List.mem_cons_self)
     obtain ⟨w2, h2, hv2⟩ := ih w1 hv1 (fun o ho => hops o (List.mem_cons_of_mem _ ho))
     exact ⟨w2, by simp only [runOps, h1, h2], hv2⟩
+
+/-! ## the full types (`UriBuf`, `IriBuf`): the scheme is mandatory -/
+
+/-- a call of a setter of `UriBuf` / `IriBuf`: `set_scheme` takes a scheme, not an option -/
+def SetOp.keepsScheme : SetOp → Bool
+  | .scheme none => false
+  | _ => true
+
+/-- the decomposition after one setter call, as specified -/
+def applyOp (P : Spec.Parts) : SetOp → Spec.Parts
+  | .scheme (some s) => { P with scheme := some s }
+  | .scheme none => { P with scheme := none, path := pathNoScheme P }
+  | .authority (some a) => { P with authority := some a, path := pathWithAuth P }
+  | .authority none => { P with authority := none, path := pathNoAuth P }
+  | .path p => { P with path := setPathSpec P p }
+  | .query v => { P with query := v }
+  | .fragment v => { P with fragment := v }
+
+/-- one setter call: the model returns the recomposition of the specified decomposition, which is
+valid and is what the new text decomposes to -/
+theorem setter_step_spec (G : Grammar) (ok : Grammar.Ok G) (okp : Grammar.OkPath G) (w : Text)
+    (h : RE.Matches G.reference w) (op : SetOp) (hop : op.Valid G) :
+    setStep w op = some (recompose (applyOp (split w) op)) ∧
+    ValidParts G (applyOp (split w) op) ∧ split (recompose (applyOp (split w) op)) = applyOp (split w) op := by
+  obtain ⟨hv, _⟩ := split_valid G ok w h
+  have fin : ∀ P', ValidParts G P' → ValidParts G P' ∧ split (recompose P') = P' :=
+    fun P' v => ⟨v, Lemmas.split_recompose P' (wf_of_valid G ok P' v)⟩
+  cases op with
+  | scheme v =>
+    cases v with
+    | some s => exact ⟨C05.model_set_scheme_some G ok w h s, fin _ (valid_set_scheme_some G ok okp (split w) hv s (hop s rfl))⟩
+    | none => exact ⟨C05.model_set_scheme_none G ok w h, fin _ (valid_set_scheme_none G ok okp (split w) hv)⟩
+  | authority v =>
+    cases v with
+    | some a => exact ⟨C05.model_set_authority_some G ok w h a, fin _ (valid_set_authority_some G ok okp (split w) hv a (hop a rfl))⟩
+    | none => exact ⟨C05.model_set_authority_none G ok w h, fin _ (valid_set_authority_none G ok okp (split w) hv)⟩
+  | path p => exact ⟨C05.model_set_path G ok w h p, fin _ (valid_set_path G ok okp (split w) hv p hop)⟩
+  | query v =>
+    exact ⟨C05.model_set_query G ok w h v, fin _ ⟨hv.scheme, hv.authority, hv.pathAuth, hv.pathScheme, hv.pathRel, hop, hv.fragment⟩⟩
+  | fragment v =>
+    exact ⟨C05.model_set_fragment G ok w h v, fin _ ⟨hv.scheme, hv.authority, hv.pathAuth, hv.pathScheme, hv.pathRel, hv.query, hop⟩⟩
+
+/-- **`UriBuf` / `IriBuf`**: any finite sequence of setter calls that never removes the scheme
+keeps the buffer a valid *full* URI/IRI -/
+theorem setter_history_full (G : Grammar) (ok : Grammar.Ok G) (okp : Grammar.OkPath G) (ops : List SetOp)
+    (w : Text) (h : RE.Matches G.full w) (hops : ∀ op ∈ ops, op.Valid G ∧ op.keepsScheme = true) :
+    ∃ w', runOps w ops = some w' ∧ RE.Matches G.full w' := by
+  induction ops generalizing w with
+  | nil => exact ⟨w, rfl, h⟩
+  | cons op ops ih =>
+    have href : RE.Matches G.reference w := RE.Matches.altL h
+    have hsch : (split w).scheme.isSome := ((C02.full_iff_scheme G ok w).mp h).2
+    obtain ⟨e1, v1, s1⟩ := setter_step_spec G ok okp w href op (hops op List.mem_cons_self).1
+    have hkeep := (hops op List.mem_cons_self).2
+    have hs1 : (applyOp (split w) op).scheme.isSome := by
+      cases op with
+      | scheme v =>
+        cases v with
+        | some s => rfl
+        | none => simp [SetOp.keepsScheme] at hkeep
+      | authority v => cases v <;> exact hsch
+      | path p => exact hsch
+      | query v => exact hsch
+      | fragment v => exact hsch
+    have hfull : RE.Matches G.full (recompose (applyOp (split w) op)) :=
+      (C02.full_iff_scheme G ok _).mpr ⟨(reference_iff G _).mpr ⟨_, rfl, v1⟩, by rw [s1]; exact hs1⟩
+    obtain ⟨w2, e2, hv2⟩ := ih _ hfull (fun o ho => hops o (List.mem_cons_of_mem _ ho))
+    exact ⟨w2, by simp only [runOps, e1, e2], hv2⟩
 
 /-- end to end: any `UriRefBuf` the constructor accepts, any sequence of setters with valid
 URI components -/
